@@ -2,6 +2,13 @@
 
 package realm
 
+import (
+	"fmt"
+	"reflect"
+	"strings"
+	"unsafe"
+)
+
 // C20 shim: constants the Lean theorems are stated over, and the two event channels
 // (bidirectional view) so that the harness can look at queued events without losing them.
 
@@ -26,28 +33,187 @@ func VerifC20Consts() map[string]any {
 	}
 }
 
+// Everything below reads unexported STATE (as opposed to constants) through reflection, so that a
+// refactoring of the representation (map → slice, renamed helper types, …) does not stop the
+// harness from compiling: what cannot be interpreted is reported at run time.
+
+// verifField returns an addressable, readable view of the unexported field `name` of *ptr.
+func verifField(ptr any, name string) (reflect.Value, bool) {
+	v := reflect.ValueOf(ptr)
+	if v.Kind() != reflect.Pointer || v.IsNil() || v.Elem().Kind() != reflect.Struct {
+		return reflect.Value{}, false
+	}
+	f := v.Elem().FieldByName(name)
+	if !f.IsValid() || !f.CanAddr() {
+		return reflect.Value{}, false
+	}
+	return reflect.NewAt(f.Type(), unsafe.Pointer(f.UnsafeAddr())).Elem(), true
+}
+
+type verifRLocker interface {
+	RLock()
+	RUnlock()
+}
+
+type verifLocker interface {
+	Lock()
+	Unlock()
+}
+
+// verifLock takes the struct's `mu` (read lock if it has one) and returns the unlock function.
+func verifLock(ptr any) func() {
+	f, ok := verifField(ptr, "mu")
+	if !ok {
+		return func() {}
+	}
+	switch m := f.Addr().Interface().(type) {
+	case verifRLocker:
+		m.RLock()
+		return m.RUnlock
+	case verifLocker:
+		m.Lock()
+		return m.Unlock
+	}
+	return func() {}
+}
+
+// VerifC20Chans returns the conn's two event channels (nil when the fields are not channels of the event types any more).
 func VerifC20Chans(c *PunchPacketConn) (chan PunchPacketEvent, chan STUNPacketEvent) {
-	return c.events, c.stun
+	var ev chan PunchPacketEvent
+	var st chan STUNPacketEvent
+	if f, ok := verifField(c, "events"); ok {
+		ev, _ = f.Interface().(chan PunchPacketEvent)
+	}
+	if f, ok := verifField(c, "stun"); ok {
+		st, _ = f.Interface().(chan STUNPacketEvent)
+	}
+	return ev, st
 }
 
-// VerifC20Registry returns a copy of the conn's registered attempts (id → metadata).
-func VerifC20Registry(c *PunchPacketConn) map[string]PunchMetadata {
-	c.mu.RLock()
-	defer c.mu.RUnlock()
-	out := make(map[string]PunchMetadata, len(c.attempts))
-	for k, v := range c.attempts {
-		out[k] = v
-	}
-	return out
+// VerifC20Entry is one registered attempt as found in the conn's table.
+type VerifC20Entry struct {
+	ID   string
+	Meta PunchMetadata
 }
 
-// VerifC20PuncherIDs returns the ids the ServerPuncher currently routes events for.
-func VerifC20PuncherIDs(p *ServerPuncher) []string {
-	p.mu.Lock()
-	defer p.mu.Unlock()
-	out := make([]string, 0, len(p.attempts))
-	for k := range p.attempts {
-		out = append(out, k)
+// verifOpen lifts the read-only mark reflection puts on values reached through unexported fields.
+func verifOpen(v reflect.Value) reflect.Value {
+	if !v.CanInterface() && v.CanAddr() {
+		return reflect.NewAt(v.Type(), unsafe.Pointer(v.UnsafeAddr())).Elem()
 	}
-	return out
+	return v
+}
+
+func verifMetaOf(v reflect.Value) (PunchMetadata, bool) {
+	v = verifOpen(v)
+	if v.CanInterface() {
+		if m, ok := v.Interface().(PunchMetadata); ok {
+			return m, true
+		}
+	}
+	if v.Kind() == reflect.Pointer && !v.IsNil() {
+		return verifMetaOf(v.Elem())
+	}
+	if v.Kind() == reflect.Struct {
+		for i := 0; i < v.NumField(); i++ {
+			if m, ok := verifMetaOf(v.Field(i)); ok {
+				return m, true
+			}
+		}
+	}
+	return PunchMetadata{}, false
+}
+
+func verifIDOf(v reflect.Value) (string, bool) {
+	if v.Kind() == reflect.Pointer && !v.IsNil() {
+		return verifIDOf(v.Elem())
+	}
+	if v.Kind() != reflect.Struct {
+		return "", false
+	}
+	for i := 0; i < v.NumField(); i++ {
+		n := strings.ToLower(v.Type().Field(i).Name)
+		if v.Field(i).Kind() == reflect.String && (n == "id" || strings.HasSuffix(n, "id")) {
+			return v.Field(i).String(), true
+		}
+	}
+	return "", false
+}
+
+// VerifC20Registry lists the conn's registered attempts in whatever container holds them: a map
+// keyed by the attempt id, or a slice/array of entries with an id field. An id can occur more than
+// once in the result (the caller reports that). why != "" means the table could not be interpreted.
+func VerifC20Registry(c *PunchPacketConn) (entries []VerifC20Entry, why string) {
+	defer func() {
+		if r := recover(); r != nil {
+			entries, why = nil, fmt.Sprint("reading the attempt table faulted: ", r)
+		}
+	}()
+	unlock := verifLock(c)
+	defer unlock()
+	f, ok := verifField(c, "attempts")
+	if !ok {
+		return nil, "PunchPacketConn has no field `attempts`"
+	}
+	switch f.Kind() {
+	case reflect.Map:
+		if f.Type().Key().Kind() != reflect.String {
+			return nil, "attempts is a map that is not keyed by a string id: " + f.Type().String()
+		}
+		it := f.MapRange()
+		for it.Next() {
+			m, ok := verifMetaOf(it.Value())
+			if !ok {
+				return nil, "no PunchMetadata in the map's values: " + f.Type().String()
+			}
+			entries = append(entries, VerifC20Entry{it.Key().String(), m})
+		}
+	case reflect.Slice, reflect.Array:
+		for i := 0; i < f.Len(); i++ {
+			id, ok1 := verifIDOf(f.Index(i))
+			m, ok2 := verifMetaOf(f.Index(i))
+			if !ok1 || !ok2 {
+				return nil, "no id / PunchMetadata in the entries of " + f.Type().String()
+			}
+			entries = append(entries, VerifC20Entry{id, m})
+		}
+	default:
+		return nil, "attempts is neither a map nor a slice: " + f.Type().String()
+	}
+	return entries, ""
+}
+
+// VerifC20PuncherIDs lists the ids the ServerPuncher currently routes events for (same conventions).
+func VerifC20PuncherIDs(p *ServerPuncher) (ids []string, why string) {
+	defer func() {
+		if r := recover(); r != nil {
+			ids, why = nil, fmt.Sprint("reading the puncher's table faulted: ", r)
+		}
+	}()
+	unlock := verifLock(p)
+	defer unlock()
+	f, ok := verifField(p, "attempts")
+	if !ok {
+		return nil, "ServerPuncher has no field `attempts`"
+	}
+	switch f.Kind() {
+	case reflect.Map:
+		if f.Type().Key().Kind() != reflect.String {
+			return nil, "attempts is a map that is not keyed by a string id: " + f.Type().String()
+		}
+		for _, k := range f.MapKeys() {
+			ids = append(ids, k.String())
+		}
+	case reflect.Slice, reflect.Array:
+		for i := 0; i < f.Len(); i++ {
+			id, ok := verifIDOf(f.Index(i))
+			if !ok {
+				return nil, "no id in the entries of " + f.Type().String()
+			}
+			ids = append(ids, id)
+		}
+	default:
+		return nil, "attempts is neither a map nor a slice: " + f.Type().String()
+	}
+	return ids, ""
 }
